@@ -498,6 +498,19 @@ def main():
             except Exception as e:
                 res.append('EXC:' + type(e).__name__)
         out['quote'] = res
+    if 'runname' in req:
+        from mesonbuild.backend import ninjabackend as nb
+
+        class RT:
+            pass
+        res = []
+        for sp, n in req['runname']:
+            t = RT()
+            t.subproject, t.name = sp, n
+            res.append(nb.NinjaBackend.build_run_target_name(None, t))
+        out['runname'] = res
+    if 'relpath' in req:
+        out['relpath'] = [os.path.relpath(t or '.', st or '.') for t, st in req['relpath']]
     if 'testlike' in req:
         out['testlike'] = [run_testlike(ts) for ts in req['testlike']]
     if 'forbidden' in req:
